@@ -11,18 +11,18 @@ from vlib.evm import Chain
 LEVEL = "proof"
 META = {
     "category": "proof",
-    "text": "Coq theorems about a model of the interface-call protocol (extcodesize rule, failure propagation, minimum "
-            "returndata size, strict scalar decoding, default_return_value, STATICCALL for view/pure, value forwarding) and "
-            "of raw_call (truncation to max_outsize, revert_on_failure), for every callee behaviour: no_code_reverts, "
-            "failure_propagates_exact, short_returndata_reverts, bad_value_reverts, ok_characterisation, "
-            "default_only_on_empty, static_for_view_pure, rawcall_truncates_to_max, rawcall_flag_semantics. The model is "
-            "tied to the compiler by correspondence: generated caller contracts (10 return types x mutability x "
-            "skip_contract_check x default_return_value x value/gas; 12 raw_call shapes) against a hand-assembled scriptable "
-            "callee on pyrevm under every configuration; caller status, revert data and result vs the model.",
-    "level_note": "H-tie only (no template observation): the theorems are about ExtCall.v, which is validated against compiled "
-                  "bytecode on the enumerated behaviours. Return types restricted to static scalars and tuples of them "
-                  "(no Bytes/String/DynArray/struct returndata); send/raw_revert/create_* not modelled. Trusted: Coq kernel, pyrevm, "
-                  "the hand-assembled callee.",
+    "text": "Coq theorems about models of the interface-call protocol (extcodesize rule, failure propagation, minimum "
+            "returndata size, strict decoding of scalar AND dynamic return types via the shared ABI/decoder models, "
+            "default_return_value, STATICCALL for view/pure, value forwarding), raw_call (all call kinds, truncation, "
+            "revert_on_failure), send, raw_revert and create_minimal_proxy_to/copy_of/from_blueprint decision tables, for every "
+            "callee behaviour. Template observation (O-tie): check_external_call / check_create_operation / _extcodesize_check "
+            "and 22 venom call-site shapes are kernel-equal to Coq generators proved to compute the model steps. "
+            "Correspondence: generated callers (scalar, tuple, Bytes/String/DynArray/struct return types x mutability x "
+            "kwargs; raw_call shapes; builtins) against hand-assembled scriptable targets on pyrevm under every configuration.",
+    "level_note": "Theorems are about the models; the models are tied by template observation (failure-handling steps) and by "
+                  "correspondence on enumerated behaviours (structured corruptions of canonical returndata). Imports C05/C06 models "
+                  "(owned by other checks). Trusted: Coq kernel, pyrevm, hand-assembled targets, eth_abi for canonical encodings, "
+                  "site/template printer. Not modelled: delegatecall storage context, SELFDESTRUCT callee, precompiles, gas exhaustion.",
     "technique": "Coq proof over protocol model + differential correspondence against a scriptable callee",
 }
 
